@@ -3412,3 +3412,230 @@ Proof.
   splits; (eapply is_derive_ext; [intro e; apply (restore3E_is_restore3 _ lat lon alt VN VE VD roll pitch heading
              E0 E1 E2 E3 E4 E5 E6 E7 E8 Hc e) | assumption]).
 Qed.
+
+(** * Part F: state_diff recovers a perturbation (C18 clause, stated under C05); simulated measurements (C06) *)
+
+(** component [d] of compute_state_difference(perturb_pva(pva, e * E), pva) *)
+Definition diff_of_perturbed
+  (d : R -> R -> R -> R -> R -> R -> R -> R -> R -> R -> R -> R -> R -> R -> R -> R -> R -> R -> R)
+  (lat lon alt VN VE VD roll pitch heading E0 E1 E2 E3 E4 E5 E6 E7 E8 e : R) : R :=
+  let P := fun f : R -> R -> R -> R -> R -> R -> R -> R -> R -> R -> R -> R -> R -> R -> R -> R -> R -> R -> R =>
+    f lat lon alt VN VE VD roll pitch heading (e * E0) (e * E1) (e * E2) (e * E3) (e * E4) (e * E5)
+      (e * E6) (e * E7) (e * E8) in
+  d (P perturb_pva_lat) (P perturb_pva_lon) (P perturb_pva_alt) (P perturb_pva_VN) (P perturb_pva_VE)
+    (P perturb_pva_VD) (P perturb_pva_roll) (P perturb_pva_pitch) (P perturb_pva_heading)
+    lat lon alt VN VE VD roll pitch heading.
+
+Lemma state_diff_recovers_perturbation lat lon alt VN VE VD roll pitch heading E0 E1 E2 E3 E4 E5 E6 E7 E8 :
+  -90 < lat < 90 -> -1000000 <= alt ->
+  let D := fun d => diff_of_perturbed d lat lon alt VN VE VD roll pitch heading E0 E1 E2 E3 E4 E5 E6 E7 E8 in
+  is_derive (D state_diff_north) 0 E0 /\ is_derive (D state_diff_east) 0 E1 /\
+  is_derive (D state_diff_down) 0 E2 /\ is_derive (D state_diff_VN) 0 E3 /\
+  is_derive (D state_diff_VE) 0 E4 /\ is_derive (D state_diff_VD) 0 E5 /\
+  is_derive (D state_diff_roll) 0 E6 /\ is_derive (D state_diff_pitch) 0 E7 /\
+  is_derive (D state_diff_heading) 0 E8.
+Proof.
+  intros Hlat Halt. cbv zeta.
+  pose proof (rn_pos (lat * (PI/180)) alt Halt) as Hrn.
+  pose proof (re_pos (lat * (PI/180)) alt Halt) as Hre.
+  pose proof (cos_d2r_pos lat Hlat) as Hcos.
+  assert (Hs : sqrt (1 - sin (lat * (PI/180)) * sin (lat * (PI/180))) = cos (lat * (PI/180)))
+    by (apply sqrt_1msin2; lra).
+  pose proof PI_neq0 as Hpi.
+  splits.
+  - unfold diff_of_perturbed, state_diff_north, perturb_pva_lat, perturb_pva_alt. cbv zeta.
+    match goal with |- is_derive (fun e => (lat + e * E0 / ?K * (180 / PI) - lat) * _) 0 _ =>
+      set (k := K) in * end.
+    match goal with |- is_derive (fun e => (lat + e * E0 / k * (180 / PI) - lat) * @?Q e) 0 _ =>
+      apply (is_derive_ext (fun e => e * (E0 * / k * (180 / PI) * Q e)));
+      [ intro e; cbv beta; unfold Rdiv; eqR; ring | apply is_derive_e_times ]
+    end.
+    + autounfold with state_diff_db. auto_derive.
+      splits; try exact I; try (apply Rgt_not_eq); try (exact (W_pos' _)); try (exact (sqrtW_pos _)).
+    + cbv beta. autounfold with state_diff_db.
+      replace (lat + 0 * E0 / k * (180 / PI)) with lat by (unfold Rdiv; ring).
+      replace (alt - 0 * E2) with alt by ring.
+      replace (1 / 2 * (lat + lat)) with lat by field.
+      replace (1 / 2 * (alt + alt)) with alt by field.
+      subst k. autounfold with perturb_pva_db.
+      match type of Hrn with 0 < ?r + alt => set (rn := r) in * end.
+      field. split; [assumption | lra].
+  - unfold diff_of_perturbed, state_diff_east, perturb_pva_lat, perturb_pva_lon, perturb_pva_alt. cbv zeta.
+    match goal with |- is_derive (fun e => (lon + e * E1 / ?K * (180 / PI) - lon) * _) 0 _ =>
+      set (k := K) in * end.
+    match goal with |- is_derive (fun e => (lon + e * E1 / k * (180 / PI) - lon) * @?Q e) 0 _ =>
+      apply (is_derive_ext (fun e => e * (E1 * / k * (180 / PI) * Q e)));
+      [ intro e; cbv beta; unfold Rdiv; eqR; ring | apply is_derive_e_times ]
+    end.
+    + autounfold with state_diff_db. auto_derive.
+      match goal with |- context [lat + 0 * E0 * / ?K0 * (180 / PI)] =>
+        replace (lat + 0 * E0 * / K0 * (180 / PI)) with lat by (unfold Rdiv; ring) end.
+      replace (1 / 2 * (lat + lat)) with lat by field.
+      splits; try exact I; try (apply Rgt_not_eq); try (exact (W_pos' _)); try (exact (sqrtW_pos _)).
+      pose proof (sc1 (lat * (PI / 180))). nra.
+    + cbv beta. autounfold with state_diff_db.
+      match goal with |- context [lat + 0 * E0 / ?K0 * (180 / PI)] =>
+        replace (lat + 0 * E0 / K0 * (180 / PI)) with lat by (unfold Rdiv; ring) end.
+      replace (alt - 0 * E2) with alt by ring.
+      replace (1 / 2 * (lat + lat)) with lat by field.
+      replace (1 / 2 * (alt + alt)) with alt by field.
+      subst k. autounfold with perturb_pva_db. rewrite Hs.
+      match type of Hre with 0 < ?r + alt => set (re := r) in * end.
+      field. splits; try assumption; lra.
+  - unfold diff_of_perturbed, state_diff_down, perturb_pva_alt. cbv zeta. auto_derive; [exact I|]. ring.
+  - unfold diff_of_perturbed, state_diff_VN, perturb_pva_VN. cbv zeta. auto_derive; [exact I|]. ring.
+  - unfold diff_of_perturbed, state_diff_VE, perturb_pva_VE. cbv zeta. auto_derive; [exact I|]. ring.
+  - unfold diff_of_perturbed, state_diff_VD, perturb_pva_VD. cbv zeta. auto_derive; [exact I|]. ring.
+  - unfold diff_of_perturbed, state_diff_roll, perturb_pva_roll. cbv zeta.
+    apply (is_derive_wrap180 (fun e => roll + e * E6 - roll)); [auto_derive; [exact I|]; ring | ring].
+  - unfold diff_of_perturbed, state_diff_pitch, perturb_pva_pitch. cbv zeta.
+    apply (is_derive_wrap180 (fun e => pitch + e * E7 - pitch)); [auto_derive; [exact I|]; ring | ring].
+  - unfold diff_of_perturbed, state_diff_heading, perturb_pva_heading. cbv zeta.
+    apply (is_derive_wrap180 (fun e => heading + e * E8 - heading)); [auto_derive; [exact I|]; ring | ring].
+Qed.
+
+(** ** simulated measurements: sim.generate_*_measurements(trajectory, s, rng) with rng.randn = (n0, n1, n2)
+    produce "truth + s * n" (position: perturb_lla by s*n metres).  Fed to the matching Measurement class as the
+    measured value and evaluated at the TRUE state (no lever arm: the generators simulate the value at the IMU):
+      - s = 0 (noise off): the residual is exactly 0, all three classes, both modes;
+      - velocity classes: z = -(s n) exactly;   Position: down row exactly -(s n2), north / east rows -(s n)
+        to first order in s (compute_lla_difference uses the mid-point radii, perturb_lla the radii at the truth). *)
+
+Definition simZ_ned3d (lat lon alt VN VE VD roll pitch heading sd s n0 n1 n2 : R) (k : nat) : R :=
+  let m := fun f : R -> R -> R -> R -> R -> R -> R -> R -> R -> R -> R -> R -> R -> R =>
+    f lat lon alt VN VE VD roll pitch heading s n0 n1 n2 in
+  match k with
+  | 0%nat => ned3d_z0 lat lon alt VN VE VD roll pitch heading (m sim_ned_VN) (m sim_ned_VE) (m sim_ned_VD) sd
+  | 1%nat => ned3d_z1 lat lon alt VN VE VD roll pitch heading (m sim_ned_VN) (m sim_ned_VE) (m sim_ned_VD) sd
+  | 2%nat => ned3d_z2 lat lon alt VN VE VD roll pitch heading (m sim_ned_VN) (m sim_ned_VE) (m sim_ned_VD) sd
+  | _ => 0 end.
+Definition simZ_ned2d (lat lon alt VN VE VD roll pitch heading sd s n0 n1 n2 : R) (k : nat) : R :=
+  let m := fun f : R -> R -> R -> R -> R -> R -> R -> R -> R -> R -> R -> R -> R -> R =>
+    f lat lon alt VN VE VD roll pitch heading s n0 n1 n2 in
+  match k with
+  | 0%nat => ned2d_z0 lat lon alt VN VE VD roll pitch heading (m sim_ned_VN) (m sim_ned_VE) (m sim_ned_VD) sd
+  | 1%nat => ned2d_z1 lat lon alt VN VE VD roll pitch heading (m sim_ned_VN) (m sim_ned_VE) (m sim_ned_VD) sd
+  | _ => 0 end.
+Definition simZ_body3d (lat lon alt VN VE VD roll pitch heading sd s n0 n1 n2 : R) (k : nat) : R :=
+  let m := fun f : R -> R -> R -> R -> R -> R -> R -> R -> R -> R -> R -> R -> R -> R =>
+    f lat lon alt VN VE VD roll pitch heading s n0 n1 n2 in
+  match k with
+  | 0%nat => body3d_z0 lat lon alt VN VE VD roll pitch heading (m sim_body_VX) (m sim_body_VY) (m sim_body_VZ) sd
+  | 1%nat => body3d_z1 lat lon alt VN VE VD roll pitch heading (m sim_body_VX) (m sim_body_VY) (m sim_body_VZ) sd
+  | 2%nat => body3d_z2 lat lon alt VN VE VD roll pitch heading (m sim_body_VX) (m sim_body_VY) (m sim_body_VZ) sd
+  | _ => 0 end.
+Definition simZ_body2d (lat lon alt VN VE VD roll pitch heading sd s n0 n1 n2 : R) (k : nat) : R :=
+  let m := fun f : R -> R -> R -> R -> R -> R -> R -> R -> R -> R -> R -> R -> R -> R =>
+    f lat lon alt VN VE VD roll pitch heading s n0 n1 n2 in
+  match k with
+  | 0%nat => body2d_z0 lat lon alt VN VE VD roll pitch heading (m sim_body_VX) (m sim_body_VY) (m sim_body_VZ) sd
+  | 1%nat => body2d_z1 lat lon alt VN VE VD roll pitch heading (m sim_body_VX) (m sim_body_VY) (m sim_body_VZ) sd
+  | 2%nat => body2d_z2 lat lon alt VN VE VD roll pitch heading (m sim_body_VX) (m sim_body_VY) (m sim_body_VZ) sd
+  | _ => 0 end.
+(** Position: as a function of the noise scale s (last argument) *)
+Definition simZ_pos3d (lat lon alt VN VE VD roll pitch heading sd n0 n1 n2 : R) (k : nat) (s : R) : R :=
+  let m := fun f : R -> R -> R -> R -> R -> R -> R -> R -> R -> R -> R -> R -> R -> R =>
+    f lat lon alt VN VE VD roll pitch heading s n0 n1 n2 in
+  match k with
+  | 0%nat => pos3d_z0 lat lon alt VN VE VD roll pitch heading (m sim_pos_lat) (m sim_pos_lon) (m sim_pos_alt) sd
+  | 1%nat => pos3d_z1 lat lon alt VN VE VD roll pitch heading (m sim_pos_lat) (m sim_pos_lon) (m sim_pos_alt) sd
+  | 2%nat => pos3d_z2 lat lon alt VN VE VD roll pitch heading (m sim_pos_lat) (m sim_pos_lon) (m sim_pos_alt) sd
+  | _ => 0 end.
+Definition simZ_pos2d (lat lon alt VN VE VD roll pitch heading sd n0 n1 n2 : R) (k : nat) (s : R) : R :=
+  let m := fun f : R -> R -> R -> R -> R -> R -> R -> R -> R -> R -> R -> R -> R -> R =>
+    f lat lon alt VN VE VD roll pitch heading s n0 n1 n2 in
+  match k with
+  | 0%nat => pos2d_z0 lat lon alt VN VE VD roll pitch heading (m sim_pos_lat) (m sim_pos_lon) (m sim_pos_alt) sd
+  | 1%nat => pos2d_z1 lat lon alt VN VE VD roll pitch heading (m sim_pos_lat) (m sim_pos_lon) (m sim_pos_alt) sd
+  | _ => 0 end.
+
+Ltac unf_sim :=
+  unfold sim_ned_VN, sim_ned_VE, sim_ned_VD, sim_body_VX, sim_body_VY, sim_body_VZ,
+    sim_pos_lat, sim_pos_lon, sim_pos_alt;
+  autounfold with errstate_meas;
+  autounfold with sim_body_db sim_pos_db ned3d_db ned2d_db body3d_db body2d_db pos3d_db pos2d_db.
+
+(** injected error: z = -(s n), exactly, velocity classes (hence z = 0 for s = 0) *)
+Lemma sim_injected_error_ned lat lon alt VN VE VD roll pitch heading sd s n0 n1 n2 :
+  (forall k, (k < 3)%nat -> simZ_ned3d lat lon alt VN VE VD roll pitch heading sd s n0 n1 n2 k = - (s * vec3 n0 n1 n2 k)) /\
+  (forall k, (k < 2)%nat -> simZ_ned2d lat lon alt VN VE VD roll pitch heading sd s n0 n1 n2 k = - (s * vec3 n0 n1 n2 k)).
+Proof.
+  split; intros k Hk; idx k; cbv [simZ_ned3d simZ_ned2d vec3]; unf_sim; ring.
+Qed.
+
+Lemma sim_injected_error_body lat lon alt VN VE VD roll pitch heading sd s n0 n1 n2 :
+  (forall k, (k < 3)%nat -> simZ_body3d lat lon alt VN VE VD roll pitch heading sd s n0 n1 n2 k = - (s * vec3 n0 n1 n2 k)) /\
+  (forall k, (k < 3)%nat -> simZ_body2d lat lon alt VN VE VD roll pitch heading sd s n0 n1 n2 k = - (s * vec3 n0 n1 n2 k)).
+Proof.
+  split; intros k Hk; idx k; cbv [simZ_body3d simZ_body2d vec3]; unf_sim; ring.
+Qed.
+
+Lemma sim_zero_residual_ned lat lon alt VN VE VD roll pitch heading sd n0 n1 n2 :
+  (forall k, (k < 3)%nat -> simZ_ned3d lat lon alt VN VE VD roll pitch heading sd 0 n0 n1 n2 k = 0) /\
+  (forall k, (k < 2)%nat -> simZ_ned2d lat lon alt VN VE VD roll pitch heading sd 0 n0 n1 n2 k = 0).
+Proof.
+  destruct (sim_injected_error_ned lat lon alt VN VE VD roll pitch heading sd 0 n0 n1 n2) as [H3 H2].
+  split; intros k Hk; [rewrite H3 by exact Hk | rewrite H2 by exact Hk]; ring.
+Qed.
+
+Lemma sim_zero_residual_body lat lon alt VN VE VD roll pitch heading sd n0 n1 n2 :
+  (forall k, (k < 3)%nat -> simZ_body3d lat lon alt VN VE VD roll pitch heading sd 0 n0 n1 n2 k = 0) /\
+  (forall k, (k < 3)%nat -> simZ_body2d lat lon alt VN VE VD roll pitch heading sd 0 n0 n1 n2 k = 0).
+Proof.
+  destruct (sim_injected_error_body lat lon alt VN VE VD roll pitch heading sd 0 n0 n1 n2) as [H3 H2].
+  split; intros k Hk; [rewrite H3 by exact Hk | rewrite H2 by exact Hk]; ring.
+Qed.
+
+(** Position, noise off: exactly 0 (no hypothesis at all); down row: exactly -(s n2) *)
+Lemma sim_zero_residual_pos lat lon alt VN VE VD roll pitch heading sd n0 n1 n2 :
+  (forall k, (k < 3)%nat -> simZ_pos3d lat lon alt VN VE VD roll pitch heading sd n0 n1 n2 k 0 = 0) /\
+  (forall k, (k < 2)%nat -> simZ_pos2d lat lon alt VN VE VD roll pitch heading sd n0 n1 n2 k 0 = 0) /\
+  (forall s, simZ_pos3d lat lon alt VN VE VD roll pitch heading sd n0 n1 n2 2 s = - (s * n2)).
+Proof.
+  splits; [intros k Hk; idx k | intros k Hk; idx k | intro s];
+    cbv [simZ_pos3d simZ_pos2d];
+    unfold pos3d_z0, pos3d_z1, pos3d_z2, pos2d_z0, pos2d_z1, sim_pos_lat, sim_pos_lon, sim_pos_alt;
+    unfold Rdiv; ring.
+Qed.
+
+(** Position, injected error: north / east rows are -(s n) to first order in s *)
+Lemma sim_injected_error_pos lat lon alt VN VE VD roll pitch heading sd n0 n1 n2 :
+  -90 < lat < 90 -> -1000000 <= alt ->
+  (forall k, (k < 3)%nat ->
+     is_derive (simZ_pos3d lat lon alt VN VE VD roll pitch heading sd n0 n1 n2 k) 0 (- vec3 n0 n1 n2 k)) /\
+  (forall k, (k < 2)%nat ->
+     is_derive (simZ_pos2d lat lon alt VN VE VD roll pitch heading sd n0 n1 n2 k) 0 (- vec3 n0 n1 n2 k)).
+Proof.
+  intros Hlat Halt.
+  pose proof (rn_pos (lat * (PI/180)) alt Halt) as Hrn.
+  pose proof (re_pos (lat * (PI/180)) alt Halt) as Hre.
+  pose proof (cos_d2r_pos lat Hlat) as Hcos.
+  assert (Hs : sqrt (1 - sin (lat * (PI/180)) * sin (lat * (PI/180))) = cos (lat * (PI/180)))
+    by (apply sqrt_1msin2; lra).
+  pose proof PI_neq0 as Hpi.
+  assert (Hc2 : 0 < 1 + - (sin (lat * (PI / 180)) * sin (lat * (PI / 180))))
+    by (pose proof (sc1 (lat * (PI / 180))); nra).
+  split; intros k Hk; idx k; cbv [simZ_pos3d simZ_pos2d vec3];
+    unfold pos3d_z0, pos3d_z1, pos3d_z2, pos2d_z0, pos2d_z1, sim_pos_lat, sim_pos_lon, sim_pos_alt;
+    try (auto_derive; [exact I|]; ring);
+    (match goal with
+     | |- is_derive (fun s => (?c - (?c + s * ?n / ?K * (180 / PI))) * (PI / 180) * @?Q s) 0 _ =>
+         apply (is_derive_ext (fun s => s * (- n * / K * (180 / PI) * (PI / 180) * Q s)));
+         [ intro s; cbv beta; unfold Rdiv; eqR; ring | apply is_derive_e_times ]
+     end;
+     [ autounfold with pos3d_db pos2d_db sim_pos_db; auto_derive;
+       repeat match goal with |- context [lat + 0 * n0 * / ?K0 * (180 / PI)] =>
+         replace (lat + 0 * n0 * / K0 * (180 / PI)) with lat by (unfold Rdiv; ring) end;
+       replace (1 / 2 * (lat + lat)) with lat by field;
+       splits; try exact I; try exact Hc2; try (apply Rgt_not_eq); try (exact (W_pos' _)); try (exact (sqrtW_pos _))
+     | cbv beta; autounfold with pos3d_db pos2d_db sim_pos_db;
+       repeat match goal with |- context [lat + 0 * n0 / ?K0 * (180 / PI)] =>
+         replace (lat + 0 * n0 / K0 * (180 / PI)) with lat by (unfold Rdiv; ring) end;
+       replace (alt - 0 * n2) with alt by ring;
+       replace (1 / 2 * (lat + lat)) with lat by field;
+       replace (1 / 2 * (alt + alt)) with alt by field;
+       rewrite ?Hs;
+       match type of Hrn with 0 < ?r + alt => set (rn := r) in * end;
+       match type of Hre with 0 < ?r + alt => set (re := r) in * end;
+       field; splits; try assumption; lra ]).
+Qed.
